@@ -10,6 +10,7 @@
 //verif:include jws_content.go
 //verif:harness H_C01_jws_verify
 //verif:harness H_C01_jws_verify_fold
+//verif:harness H_C01_jws_verify_after thorough-only
 package jws
 
 import (
@@ -27,12 +28,40 @@ func H_C01_jws_verify_fold() {
 	H_C01_jws_verify()
 }
 
+// the same on an object on which Content() or Verify() has been called before (the object is stateful)
+var statefulJ bool
+
+func H_C01_jws_verify_after() {
+	statefulJ = true
+	extrasMax = 1
+	H_C01_jws_verify()
+}
+
 func H_C01_jws_verify() {
 	env := buildEnvelopeJWS()
 	raw := rt.Atom("raw")
 	rawLenJ = len(raw)
 	e := &base.Envelope{Envelope: &envelope{base: env}, Raw: raw}
 	p0, y0, s0 := env.Protected, env.Payload, env.Signature
+	// the object is stateful: what was called on it before must not matter (content extraction is allowed on an
+	// unverified envelope and is what callers do first to pick a trust policy)
+	prior := 0
+	if statefulJ {
+		prior = 1 + rt.Choose("prior.call", 2)
+	}
+	if prior != 0 {
+		// bound of the stateful variants: the three texts are free of '.', as every base64url text is (with a prior call
+		// the splitting forks of golang-jwt multiply with the header shapes instead of preceding them)
+		rt.NoSep(env.Protected, ".")
+		rt.NoSep(env.Payload, ".")
+		rt.NoSep(env.Signature, ".")
+	}
+	switch prior {
+	case 1:
+		e.Content()
+	case 2:
+		e.Verify()
+	}
 	c, err := e.Verify()
 	rt.Assert(rt.Same(p0, env.Protected) && rt.Same(y0, env.Payload) && rt.Same(s0, env.Signature), "C01.jws.envelope.unchanged")
 	if err != nil {
